@@ -260,18 +260,25 @@ func (r *RPCExecuteProgramRequest) EncodeTo(e *types.Encoder) {
 // DecodeFrom implements ProtocolObject.
 func (r *RPCExecuteProgramRequest) DecodeFrom(d *types.Decoder) {
 	r.FileContractID.DecodeFrom(d)
-	r.Program = make([]Instruction, d.ReadUint64())
-	for i := range r.Program {
+	// NOTE: the instruction count comes from the wire; grow the slice as
+	// instructions are actually decoded instead of allocating for the claimed
+	// count up front
+	n := d.ReadUint64()
+	r.Program = nil
+	for i := uint64(0); i < n && d.Err() == nil; i++ {
 		var id types.Specifier
 		id.DecodeFrom(d)
-		r.Program[i] = instructionForID(id, d.ReadUint64())
-		if r.Program[i] == nil {
+		instr := instructionForID(id, d.ReadUint64())
+		if d.Err() != nil {
+			return
+		} else if instr == nil {
 			d.SetErr(fmt.Errorf("unrecognized instruction id: %q", id))
 			return
 		}
-		if r.Program[i].DecodeFrom(d); d.Err() != nil {
+		if instr.DecodeFrom(d); d.Err() != nil {
 			return
 		}
+		r.Program = append(r.Program, instr)
 	}
 	r.ProgramData = d.ReadBytes()
 }
@@ -305,8 +312,16 @@ func (r *RPCExecuteProgramResponse) DecodeFrom(d *types.Decoder) {
 	}
 	(*types.V1Currency)(&r.TotalCost).DecodeFrom(d)
 	(*types.V1Currency)(&r.FailureRefund).DecodeFrom(d)
-	r.Output = make([]byte, r.OutputLength)
-	d.Read(r.Output)
+	// NOTE: OutputLength comes from the wire; read the output in bounded
+	// chunks so that a bogus length cannot force a huge allocation
+	r.Output = make([]byte, 0, min(r.OutputLength, 1<<16))
+	for rem := r.OutputLength; rem > 0 && d.Err() == nil; {
+		chunk := make([]byte, min(rem, 1<<16))
+		if d.Read(chunk); d.Err() == nil {
+			r.Output = append(r.Output, chunk...)
+		}
+		rem -= uint64(len(chunk))
+	}
 }
 
 // EncodeTo implements ProtocolObject.
